@@ -77,8 +77,8 @@ MANIFEST = dict(
 # rules that keep their verdict however the code is laid out: decided by bounded evaluation of the parsed code against the
 # specification (every `eval::` instance), by term equality, reaching definitions, effect analysis or dominance over resolved calls.
 # Every other rule instance of this check is a template rule (vcheck.core.Check.ob / set_templates).
-SEMANTIC = ('R02.5g', 'R02.7l', 'R02.1b', 'R02.1c', 'R02.1e', 'R02.1g', 'R02.2a', 'R02.2b', 'R02.2c', 'R02.4', 'R02.6b', 'R02.6c', 'R02.6f', 'R02.7i', 'R02.7k',
-            'R02.1f::eval::', 'R02.1f::sem::', 'R02.3a::eval::', 'R02.3a::sem::', 'R02.3b::eval::', 'R02.3c::eval::', 'R02.3d::eval::',
+SEMANTIC = ('R02.5g', 'R02.7l', 'R02.7m', 'R02.1b', 'R02.1c', 'R02.1e', 'R02.1g', 'R02.2a', 'R02.2b', 'R02.2c', 'R02.4', 'R02.6b', 'R02.6c', 'R02.6f', 'R02.7i', 'R02.7k',
+            'R02.1f::eval::', 'R02.1f::sem::', 'R02.3a::eval::', 'R02.3a::sem::', 'R02.3b::eval::', 'R02.3b::sem::', 'R02.3c::eval::', 'R02.3d::eval::',
             'R02.5b::eval::', 'R02.5b::sem::', 'R02.5c::eval::', 'R02.5d::eval::', 'R02.5e::eval::', 'R02.5f::eval::',
             'R02.6a::eval::', 'R02.6a::sem::', 'R02.6d::eval::', 'R02.6e::eval::',
             'R02.7a::eval::', 'R02.7b::eval::', 'R02.7e::eval::', 'R02.7f::eval::', 'R02.7j::eval::', 'R02.7j::sem::')
@@ -296,10 +296,52 @@ def _decompose(t, truth, out, elementwise=False):
     out.append((t, truth, elementwise))
 
 
+_xd_cache = {}
+
+
+def _xdefs(fn):
+    """rules.single_defs plus the locals bound exactly once by an element-wise parallel assignment `a, b = x, y` (same arity, no
+    starred element): `rmin, rmax = rows[0], rows[-1]` names the same values as two plain assignments"""
+    if id(fn) in _xd_cache:
+        return _xd_cache[id(fn)][1]
+    from vcheck.cfg import func_params
+    sd = dict(rules.single_defs(fn))
+    stores, cand = {}, {}
+    for x in walk_no_nested(fn):
+        if isinstance(x, ast.Name) and isinstance(x.ctx, (ast.Store, ast.Del)):
+            stores[x.id] = stores.get(x.id, 0) + 1
+        elif isinstance(x, ast.ExceptHandler) and x.name:
+            stores[x.name] = stores.get(x.name, 0) + 2
+        elif isinstance(x, (ast.Global, ast.Nonlocal)):
+            for nm in x.names:
+                stores[nm] = stores.get(nm, 0) + 2
+        if isinstance(x, ast.Assign) and len(x.targets) == 1 and isinstance(x.targets[0], (ast.Tuple, ast.List)) \
+                and isinstance(x.value, (ast.Tuple, ast.List)) and len(x.targets[0].elts) == len(x.value.elts) \
+                and not any(isinstance(e, ast.Starred) for e in list(x.targets[0].elts) + list(x.value.elts)):
+            tn = {t.id for t in x.targets[0].elts if isinstance(t, ast.Name)}
+            # a parallel assignment reads all values before it stores: only element-wise when no value mentions a target
+            if not any(isinstance(y, ast.Name) and y.id in tn for v in x.value.elts for y in ast.walk(v)):
+                for t, v in zip(x.targets[0].elts, x.value.elts):
+                    if isinstance(t, ast.Name):
+                        cand[t.id] = v
+    params = set(func_params(fn)) if isinstance(fn, (ast.FunctionDef, ast.AsyncFunctionDef)) else set()
+    for k, v in cand.items():
+        if stores.get(k) == 1 and k not in params and k not in sd:
+            sd[k] = v
+    _xd_cache[id(fn)] = (fn, sd)
+    return sd
+
+
+def _xexpand(node, fn, depth=6):
+    """rules.expand that also sees through element-wise parallel assignments"""
+    import copy
+    return rules._Subst(_xdefs(fn), depth).visit(copy.deepcopy(node))
+
+
 def _canon(t, truth, fn=None):
     """(op, left text, right text) with > / >= turned round and the truth value folded into the operator"""
     if fn is not None:
-        t = rules.expand(t, fn)
+        t = _xexpand(t, fn)
     if isinstance(t, ast.Compare) and len(t.ops) == 1 and type(t.ops[0]) in _OPNAME:
         op = _OPNAME[type(t.ops[0])]
         l, r = norm(t.left), norm(t.comparators[0])
@@ -2639,6 +2681,33 @@ def _r02_2_structural(chk, repo, fi):
     _no_clamp(chk, fi, {})
 
 
+def _row_fold(e, v):
+    """text describing how expression e folds the row number `v` (text of a name / subscript) into the table, else None:
+    v % <..nrows..>, numpy.mod / remainder / fmod / divmod / operator.mod (v, <..nrows..>), min / max / minimum / maximum / clip of v
+    against a term of the row count"""
+    def has_v(x):
+        return any(norm(y) == v for y in ast.walk(x) if isinstance(y, (ast.Name, ast.Subscript, ast.Attribute)))
+
+    def has_n(x):
+        t = norm(x)
+        return "nrows" in t or "len(self)" in t
+
+    for x in ast.walk(e):
+        if isinstance(x, ast.BinOp) and isinstance(x.op, ast.Mod) and has_v(x.left) and has_n(x.right) \
+                and not (isinstance(x.left, ast.Constant) and isinstance(x.left.value, str)):
+            return "remainder modulo the row count"
+        if isinstance(x, ast.Call) and not isinstance(x.func, ast.Lambda):
+            nm = call_name(x)
+            args = list(x.args) + [k.value for k in x.keywords] + ([x.func.value] if isinstance(x.func, ast.Attribute) and
+                                                                   not (isinstance(x.func.value, ast.Name) and x.func.value.id in ("numpy", "np", "operator", "math")) else [])
+            if nm in ("mod", "remainder", "fmod", "divmod") and len(x.args) == 2 and has_v(x.args[0]) and has_n(x.args[1]):
+                return "remainder modulo the row count"
+            if nm in ("min", "max", "minimum", "maximum", "clip", "fmin", "fmax") and any(has_v(a_) for a_ in args) \
+                    and any(has_n(a_) and not has_v(a_) for a_ in args):
+                return "bounded by a term of the row count"
+    return None
+
+
 def _no_clamp(chk, fi, flags):
     cfg = cfg_of(fi)
     view = cfg.specialise(flags=flags)
@@ -2652,11 +2721,35 @@ def _no_clamp(chk, fi, flags):
             base = tgt.value if isinstance(tgt, ast.Subscript) else tgt
             if isinstance(base, ast.Name):
                 v, val = norm(tgt), a.value
+        elif n.kind == "stmt" and isinstance(a, ast.AugAssign):
+            base = a.target.value if isinstance(a.target, ast.Subscript) else a.target
+            if isinstance(base, ast.Name):
+                ld = ast.parse(norm(a.target), mode="eval").body
+                v, val = norm(a.target), ast.BinOp(left=ld, op=a.op, right=a.value)
         elif n.kind == "return" and a.value is not None and len(fi.params) > 1 and not isinstance(a.value, ast.Name):
             v, val = fi.params[1], a.value
-        if v is None or "nrows" not in norm(val):
+        if v is None:
             continue
-        for f in _node_facts(view, n):
+        xval = _xexpand(val, fi.node)
+        if not any(nr in norm(xval) for nr in _NROWS + ("nrows",)):
+            continue
+        # folding: the new value of the row number is the old one reduced modulo the row count, or bounded by a term made from the
+        # row count (min / max / clip).  Such a map sends row numbers outside [-nrows, nrows) into [0, nrows): the range check that
+        # follows can no longer reject them.  (Adding the row count to a negative number keeps every k < -nrows negative.)
+        fold = _row_fold(xval, v)
+        facts = _node_facts(view, n, fi.node)
+        if fold is not None:
+            # a guard that itself confines the old value by a term of the row count (e.g. -nrows <= v) may make the fold exact
+            confined = any(len(f) >= 3 and ((v in (f[1], f[2])) and "nrows" in (f[1] + f[2]) or ("len(self)" in f[1] + f[2] and v in (f[1], f[2]))) for f in facts)
+            found += 1
+            chk.ob("R02.2c", fi.qualname + "::no-clamp-of-explicit-row", None if confined else False, fi.where(a),
+                   "an explicit row number is replaced by `%s` (%s)%s: every row number outside [-nrows, nrows) is folded onto a row of the "
+                   "table instead of being rejected, so read(rows=k) / read(rows=[k]) with k < -nrows (or k >= nrows) silently returns "
+                   "another row" % (norm(val), fold, " under a guard on the row count that was not evaluated" if confined else ""))
+            continue
+        if "nrows" not in norm(val) and "nrows" not in norm(xval):
+            continue
+        for f in facts + [g for g in _node_facts(view, n) if g not in facts]:
             # v > <..nrows..>  /  v >= <..nrows..>   (canonical: <..nrows..> < v)
             if f[0] in ("<", "<=") and f[2] == v and "nrows" in f[1]:
                 found += 1
@@ -2786,6 +2879,138 @@ def _position_of_name(e, key, tables, fn):
                 l, r = norm(c.left), norm(c.comparators[0])
                 return (l in _FILE_NAMES and r == key) or (r in _FILE_NAMES and l == key)
     return False
+
+
+_NAME_FOLDS = ("lower", "upper", "casefold", "strip", "lstrip", "rstrip", "title", "capitalize", "swapcase", "replace", "translate",
+               "expandtabs", "split", "rsplit", "partition", "rpartition", "removeprefix", "removesuffix", "zfill", "ljust", "rjust", "center")
+_NAME_PARTIAL = ("startswith", "endswith", "find", "rfind", "count", "match", "search", "fullmatch", "fnmatch", "fnmatchcase", "filter")
+
+
+def _mask_of_positions(fn, e, depth=0):
+    """the mask M when expression e lists the positions of the set elements of M: numpy.flatnonzero(M), numpy.where(M)[0],
+    numpy.nonzero(M)[0], M.nonzero()[0], numpy.argwhere(M).ravel()/flatten()/[:, 0], or a local bound once by `(w,) = numpy.where(M)`
+    or by a plain assignment of one of these; else None"""
+    if depth > 4:
+        return None
+    if isinstance(e, ast.Name):
+        binds = []
+        for x in walk_no_nested(fn):
+            if isinstance(x, ast.Assign):
+                for t in x.targets:
+                    if any(isinstance(tt, ast.Name) and tt.id == e.id for tt in ast.walk(t)):
+                        binds.append((x, t))
+            elif isinstance(x, (ast.AugAssign, ast.AnnAssign, ast.For, ast.comprehension, ast.NamedExpr)) and \
+                    any(isinstance(tt, ast.Name) and tt.id == e.id for tt in ast.walk(x.target)):
+                binds.append((x, None))
+            elif isinstance(x, ast.With) and any(it.optional_vars is not None and any(isinstance(tt, ast.Name) and tt.id == e.id for tt in ast.walk(it.optional_vars))
+                                                 for it in x.items):
+                binds.append((x, None))
+        from vcheck.cfg import func_params
+        if len(binds) != 1 or binds[0][1] is None or len(binds[0][0].targets) != 1 or e.id in func_params(fn):
+            return None
+        st, t = binds[0]
+        if isinstance(t, ast.Name):
+            return _mask_of_positions(fn, st.value, depth + 1)
+        if isinstance(t, (ast.Tuple, ast.List)) and len(t.elts) == 1 and isinstance(t.elts[0], ast.Name):
+            v = st.value
+            if _is_mask_positions(v):
+                return v.args[0] if v.args else v.func.value
+        return None
+    if isinstance(e, ast.Call) and not e.keywords:
+        nm = call_name(e)
+        lib = isinstance(e.func, ast.Attribute) and isinstance(e.func.value, ast.Name) and e.func.value.id in ("numpy", "np")
+        if nm == "flatnonzero" and lib and len(e.args) == 1:
+            return e.args[0]
+        if nm in ("ravel", "flatten") and isinstance(e.func, ast.Attribute) and not lib and not e.args:
+            inner = e.func.value
+            if isinstance(inner, ast.Call) and call_name(inner) == "argwhere" and len(inner.args) == 1 and not inner.keywords:
+                return inner.args[0]
+    if isinstance(e, ast.Subscript) and norm(e.slice) == "0" and _is_mask_positions(e.value):
+        w = e.value
+        return w.args[0] if w.args else w.func.value
+    return None
+
+
+def _colnum_match(fn, key, tables):
+    """how get_colnum-like function `fn` matches the requested name `key` against the names of the file, per return statement:
+    list of ('exact' | 'folded' | 'partial' | 'unknown', text).  exact: the result is the (first) position where the stored names are
+    EQUAL to the requested name -- positions of the mask NAMES == key, <name -> position table>[key], list(NAMES).index(key);
+    folded: the two sides of the comparison are first put through a string transformation that is not one-to-one (case folding,
+    stripping, ...), so distinct names of the file are identified; partial: prefix / substring / pattern match"""
+    def is_names(x):
+        return rules.xnorm(x, fn) in _FILE_NAMES or norm(x) in _FILE_NAMES
+
+    def is_key(x):
+        x = _xexpand(x, fn)
+        if isinstance(x, ast.Call) and call_name(x) in ("str", "str_", "asarray", "array") and len(x.args) == 1 and not x.keywords:
+            x = x.args[0]
+        return norm(x) == key
+
+    def mentions_names(x):
+        t = norm(x)
+        return any(nm in t for nm in ("self.dtype.names", "self.colnames", "self.dtype.fields"))
+
+    def mentions_key(x):
+        return any(isinstance(y, ast.Name) and y.id == key for y in ast.walk(x))
+
+    def folds(x):
+        return [call_name(y) for y in ast.walk(x) if isinstance(y, ast.Call) and call_name(y) in _NAME_FOLDS]
+
+    def classify_mask(m):
+        m = _xexpand(m, fn)
+        if isinstance(m, ast.Compare) and len(m.ops) == 1 and isinstance(m.ops[0], ast.Eq):
+            l, r = m.left, m.comparators[0]
+            if (is_names(l) and is_key(r)) or (is_names(r) and is_key(l)):
+                return "exact"
+            if (mentions_names(l) and mentions_key(r)) or (mentions_names(r) and mentions_key(l)):
+                f = folds(l) + folds(r)
+                if f:
+                    return "folded:" + ",".join(sorted(set(f)))
+            return "unknown"
+        if isinstance(m, ast.Call) and mentions_names(m) and mentions_key(m):
+            nm = call_name(m)
+            if nm == "equal" and len(m.args) == 2 and not m.keywords and \
+                    ((is_names(m.args[0]) and is_key(m.args[1])) or (is_names(m.args[1]) and is_key(m.args[0]))):
+                return "exact"
+            if nm in _NAME_PARTIAL:
+                return "partial:" + nm
+            f = folds(m)
+            if f and nm in ("equal", "isin", "in1d"):
+                return "folded:" + ",".join(sorted(set(f)))
+        return "unknown"
+
+    out = []
+    for r in walk_no_nested(fn):
+        if not isinstance(r, ast.Return) or r.value is None:
+            continue
+        e = r.value
+        for _ in range(3):
+            if isinstance(e, ast.Call) and call_name(e) in ("int", "int64", "intp", "index") and len(e.args) == 1 and not e.keywords and \
+                    not (call_name(e) == "index" and not (isinstance(e.func, ast.Attribute) and norm(e.func.value) == "operator")):
+                e = e.args[0]
+            elif isinstance(e, ast.Name) and e.id in _xdefs(fn):
+                e = _xdefs(fn)[e.id]
+        kind = "unknown"
+        if _table_lookup(_xexpand(e, fn), key, tables, fn):
+            kind = "exact"
+        elif isinstance(e, ast.Call) and call_name(e) == "index" and isinstance(e.func, ast.Attribute) and len(e.args) == 1 and not e.keywords \
+                and is_key(e.args[0]):
+            seq = _xexpand(e.func.value, fn)
+            if norm(seq) in _FILE_NAMES:
+                kind = "exact"
+            elif mentions_names(seq) and folds(seq):
+                kind = "folded:" + ",".join(sorted(set(folds(seq))))
+        elif isinstance(e, ast.Subscript) and norm(e.slice) in ("0", "-1"):
+            m = _mask_of_positions(fn, e.value)
+            if m is None:
+                ev = _xexpand(e.value, fn)
+                m = _mask_of_positions(fn, ev)
+            if m is not None:
+                kind = classify_mask(m)
+                if kind == "exact" and norm(e.slice) != "0":
+                    kind = "unknown"
+        out.append((kind, norm(r.value)))
+    return out
 
 
 def _is_name_lookup(repo, fi, e, elem, tables, depth=0):
@@ -2998,6 +3223,19 @@ def _r02_3_structural(chk, repo, F):
             if ("size == 0" in t or "not in" in t or "size < 1" in t) and lab == "T":
                 ok = True
     key = g1.params[1] if len(g1.params) > 1 else None
+    # the same test in any spelling: a raise under a branch that found the positions that the result is taken from empty
+    # (X.size == 0, not X.size, len(X) < 1, ...), or the mask without a set element (not M.any())
+    rtexts = [rules.xnorm(x.value, g1.node) for x in walk_no_nested(g1.node) if isinstance(x, ast.Return) and x.value is not None]
+    rtexts += [norm(x.value) for x in walk_no_nested(g1.node) if isinstance(x, ast.Return) and x.value is not None]
+    for n in rules.raise_nodes(cfg):
+        for f in _node_facts(view, n, g1.node) + _node_facts(view, n):
+            for suffix, prefix in ((".size", ""), (")", "len("), (".shape[0]", "")):
+                if f[1].endswith(suffix) and f[1].startswith(prefix):
+                    v = f[1][len(prefix):len(f[1]) - len(suffix)]
+                    if v and _empty_fact(f, v) and any(v in t for t in rtexts):
+                        ok = True
+            if f[0] == "falsy" and f[1].endswith(".any()") and key and key in f[1] and any(nm in f[1] for nm in _FILE_NAMES):
+                ok = True
     for x in walk_no_nested(g1.node):
         # try: ... <table>[name] ... except KeyError: raise ...   (the look-up itself raises for a name that is not a column)
         if isinstance(x, ast.Try) and key and any(_table_lookup(y, key, tables, g1.node) for st in x.body for y in ast.walk(st)):
@@ -3016,6 +3254,24 @@ def _r02_3_structural(chk, repo, F):
     ok = ok and cmp_ok
     if not ok and key and rets:
         ok = all(_position_of_name(r.value, key, tables, g1.node) for r in rets)
+    # semantic instance: the match between the stored names and the requested name is equality of the strings as they are.  Decided on
+    # the terms the returns hand out (the mask whose positions are returned, followed through locals), however the function is laid
+    # out; a verdict only when the comparison is positively identified
+    kinds = _colnum_match(g1.node, key, tables) if key else []
+    if kinds and all(k == "exact" for k, _ in kinds):
+        chk.ob("R02.3b", "sem::" + g1.qualname + "::exact-name-match", True, g1.where(),
+               "every return hands out the position where the file's field names equal the requested name")
+        ok = True
+    else:
+        bad = [(k, t) for k, t in kinds if k.startswith(("folded", "partial"))]
+        if bad:
+            k, t = bad[0]
+            what = ("both sides of the name comparison go through %s(), which maps distinct names onto one" % k.split(":")[1].split(",")[0]) \
+                if k.startswith("folded") else ("the names are matched by %s(), not by equality" % k.split(":")[1])
+            chk.ob("R02.3b", "sem::" + g1.qualname + "::exact-name-match", False, g1.where(),
+                   "the column number returned (`%s`) is not the position of the name that EQUALS the request: %s; in a table with two "
+                   "column names that this match identifies (e.g. 'x' and 'X') a request for the later one reads the earlier column"
+                   % (t, what))
     chk.ob("R02.3b", g1.qualname + "::position-of-equal-name", ok, g1.where(),
            "the column number is the position where the stored names equal the requested name (search of the name array, or a look-up "
            "in a table that maps each name of the file's dtype to its position)")
@@ -4928,11 +5184,295 @@ def r02_7(chk, cfun, S):
         _r02_7j_structural(chk, cfun, sem)
     _r02_7l_index_guard(chk, cfun)
     try:
+        _r02_7m_skip_like_read(chk, cfun)
+    except AnalysisError:
+        raise
+    except Exception as e:              # a defect of the analysis must never become a verdict
+        chk.ob("R02.7m", "text-field-readers", None, CPP, "analysis failed: %s: %s" % (type(e).__name__, e))
+    try:
         _r02_7k_binary_movers(chk, cfun)
     except AnalysisError:
         raise
     except Exception as e:              # a defect of the analysis must never become a verdict
         chk.ob("R02.7k", "binary-skip-helpers", None, CPP, "analysis failed: %s: %s" % (type(e).__name__, e))
+
+
+# ---------------------------------------------------------------------------
+# R02.7m: passing over a field of a text row moves the file cursor exactly as reading it does.
+#
+# A per-field text reader (Records::read_from_text_column and the helpers it hands its destination pointer to) is called with a NULL
+# destination for the fields a column subset does not want.  Where a field ends in the file is decided by its content (scanf
+# conversions, delimiters, the newline after the last field), so the skip must find the end of the field the same way the read does.
+# Decided over the C++ CFG of each such function, once under "destination == NULL" and once under "destination != NULL": a forward
+# constant propagation of the truthiness of the destination parameter and of the locals assigned only literals / the parameter /
+# addresses (three-valued; ! && || == != against 0 / NULL / true are evaluated, anything else is followed both ways) prunes the
+# infeasible edges; the stream-consuming call sites (getc family, scanf family, fread, fgets / getline, seeks, and calls of functions
+# of the unit that reach one) reachable in the two modes are compared.  A site reachable in one mode only is accepted when the other
+# mode has a site of its own with the same callee and the same arguments apart from the destination (the code was duplicated per
+# mode).  Otherwise: a content-dependent consumer (scanf family, line readers, a character read that feeds the condition of a loop it
+# is in) that only one mode executes is a violation -- the two modes find different field ends --; a fixed-distance consumer (seek,
+# fread, counted character loop) that only one mode executes gives no verdict (its distance would have to be proved equal).
+# ---------------------------------------------------------------------------
+_FP_GETC = ("fgetc", "getc", "getc_unlocked", "fgetc_unlocked", "_IO_getc")
+_FP_CONTENT = ("fscanf", "vfscanf", "fgets", "fgets_unlocked", "getline", "getdelim")
+_FP_FIXED = ("fread", "fread_unlocked", "ungetc", "fseek", "fseeko", "fseeko64", "_fseeki64", "myfseeko", "rewind", "fsetpos")
+_FP_CONSUME = _FP_GETC + _FP_CONTENT + _FP_FIXED
+
+
+def _fp_truth(x, state):
+    """three-valued truthiness of a C expression over the tracked variables"""
+    x = cfront.strip(x)
+    k = x.get("kind")
+    inner = [c for c in (x.get("inner", []) or []) if isinstance(c, dict) and c.get("kind")]
+    if k == "IntegerLiteral":
+        try:
+            return int(x.get("value")) != 0
+        except (TypeError, ValueError):
+            return None
+    if k == "CXXBoolLiteralExpr":
+        return bool(x.get("value"))
+    if k in ("GNUNullExpr", "CXXNullPtrLiteralExpr"):
+        return False
+    if k == "DeclRefExpr":
+        return state.get(x.get("referencedDecl", {}).get("name"))
+    if k == "UnaryOperator" and inner:
+        if x.get("opcode") == "!":
+            v = _fp_truth(inner[0], state)
+            return None if v is None else (not v)
+        if x.get("opcode") == "&":
+            return True
+        return None
+    if k == "BinaryOperator" and len(inner) == 2:
+        op = x.get("opcode")
+        if op in ("&&", "||"):
+            a, b = _fp_truth(inner[0], state), _fp_truth(inner[1], state)
+            if op == "&&":
+                return False if (a is False or b is False) else (True if (a is True and b is True) else None)
+            return True if (a is True or b is True) else (False if (a is False and b is False) else None)
+        if op in ("==", "!="):
+            for lit, other in ((inner[0], inner[1]), (inner[1], inner[0])):
+                ls = cfront.strip(lit)
+                if ls.get("kind") in ("IntegerLiteral", "CXXBoolLiteralExpr", "GNUNullExpr", "CXXNullPtrLiteralExpr"):
+                    lv = _fp_truth(ls, {})
+                    if ls.get("kind") == "IntegerLiteral" and lv:
+                        return None                 # compared with a non-zero number: not a truthiness test
+                    v = _fp_truth(other, state)
+                    if v is None or lv is None:
+                        return None
+                    return (v == lv) if op == "==" else (v != lv)
+        return None
+    return None
+
+
+def _fp_transfer(n, state):
+    if not isinstance(n.c, dict):
+        return state
+    out = None
+    for x in cfront.walk(n.c):
+        k = x.get("kind")
+        nm = val = None
+        if k == "VarDecl" and x.get("name"):
+            ini = [y for y in x.get("inner", []) if isinstance(y, dict) and y.get("kind")]
+            nm = x["name"]
+            val = _fp_truth(ini[-1], state) if (ini and "init" in x) else None
+        elif k == "BinaryOperator" and x.get("opcode") == "=":
+            l = cfront.strip(x["inner"][0])
+            if l.get("kind") == "DeclRefExpr":
+                nm = l.get("referencedDecl", {}).get("name")
+                val = _fp_truth(x["inner"][1], state)
+        elif k == "CompoundAssignOperator" or (k == "UnaryOperator" and x.get("opcode") in ("++", "--")):
+            l = cfront.strip(x["inner"][0])
+            if l.get("kind") == "DeclRefExpr":
+                nm = l.get("referencedDecl", {}).get("name")
+                ptr = "*" in (l.get("type", {}).get("qualType") or "")
+                val = state.get(nm) if ptr else None     # stepping a pointer keeps it (non-)null; a stepped number is not followed
+        elif k == "UnaryOperator" and x.get("opcode") == "&":
+            l = cfront.strip(x["inner"][0])
+            if l.get("kind") == "DeclRefExpr" and l.get("referencedDecl", {}).get("name") in state:
+                nm, val = l["referencedDecl"]["name"], None     # address taken: may be written through
+        if nm is not None:
+            if out is None:
+                out = dict(state)
+            out[nm] = val
+    return state if out is None else out
+
+
+def _fp_reach(ccfg, param, nonnull):
+    """ids of the CFG nodes reachable when the destination parameter is (non-)NULL on entry"""
+    states = {ccfg.entry.id: {param: nonnull}}
+    todo = [ccfg.entry.id]
+    while todo:
+        i = todo.pop()
+        n = ccfg.node(i)
+        st = states[i]
+        v = None
+        if n.kind in ("branch", "loop") and isinstance(n.c, dict) and n.c.get("kind"):
+            v = _fp_truth(n.c, st)
+        after = _fp_transfer(n, st)
+        for j in ccfg.g.successors(i):
+            labs = ccfg.g[i][j]["labels"]
+            if v is True and labs <= {"F"}:
+                continue
+            if v is False and labs <= {"T"}:
+                continue
+            old = states.get(j)
+            if old is None:
+                new = dict(after)
+            else:
+                new = {k: (old[k] if (k in after and after[k] == old[k]) else None) for k in old}
+                for k in after:
+                    if k not in new:
+                        new[k] = None
+            if old is None or new != old:
+                states[j] = new
+                todo.append(j)
+    return set(states)
+
+
+def _fp_loops_of(fn):
+    """id(call expression) -> list of the conditions of the loops the call is inside (or is the condition of)"""
+    out = {}
+
+    def visit(x, conds):
+        if not isinstance(x, dict):
+            return
+        k = x.get("kind")
+        inner = x.get("inner", []) or []
+        if k in ("CallExpr", "CXXMemberCallExpr"):
+            out[id(x)] = list(conds)
+        if k == "ForStmt":
+            parts = (inner + [{}] * 5)[:5]
+            visit(parts[0], conds)
+            c2 = conds + [parts[2]] if isinstance(parts[2], dict) and parts[2].get("kind") else conds + [{}]
+            for p in parts[1:]:
+                visit(p, c2)
+            return
+        if k == "WhileStmt" and inner:
+            c2 = conds + [inner[0]]
+            for p in inner:
+                visit(p, c2)
+            return
+        if k == "DoStmt" and len(inner) >= 2:
+            c2 = conds + [inner[1]]
+            for p in inner:
+                visit(p, c2)
+            return
+        for c in inner:
+            visit(c, conds)
+
+    visit(cfront.body_of(fn), [])
+    return out
+
+
+def _fp_content_dependent(fn, call, loops):
+    """the number of characters the call consumes (counting the rounds of the loops it is in) depends on what is in the file"""
+    nm = cfront.callee_name(call)
+    if nm in _FP_CONTENT:
+        return True
+    if nm not in _FP_GETC:
+        return False
+    holders = set()
+    for x in cfront.walk(cfront.body_of(fn)):
+        k = x.get("kind")
+        if k == "VarDecl" and x.get("name") and any(y is call for y in cfront.walk(x)):
+            holders.add(x["name"])
+        elif k == "BinaryOperator" and x.get("opcode") == "=" and any(y is call for y in cfront.walk(x["inner"][1])):
+            l = cfront.strip(x["inner"][0])
+            if l.get("kind") == "DeclRefExpr":
+                holders.add(l.get("referencedDecl", {}).get("name"))
+    for cond in loops.get(id(call), []):
+        for y in cfront.walk(cond):
+            if y is call or (y.get("kind") == "DeclRefExpr" and y.get("referencedDecl", {}).get("name") in holders):
+                return True
+    return False
+
+
+def _r02_7m_skip_like_read(chk, cfun):
+    root = cfun.get("Records::read_from_text_column")
+    if root is None:
+        chk.ob("R02.7m", "Records::read_from_text_column::skip-moves-like-read", None, CPP,
+               "the per-field text reader Records::read_from_text_column was not found (inlined or renamed): where the skipped fields "
+               "are passed over is not recognised")
+        return
+    cg = cfront.call_graph(cfun)
+    movers = cfront.reaching_functions(cg, _FP_CONSUME)
+
+    def dest_param(fn):
+        ps = [c for c in fn.get("inner", []) if c.get("kind") == "ParmVarDecl" and c.get("name")
+              and (c.get("type", {}).get("qualType") or "").replace("const ", "") in ("char *", "void *", "unsigned char *")]
+        return ps[0]["name"] if len(ps) == 1 else None
+
+    todo, units = [("Records::read_from_text_column", root)], []
+    seen = set()
+    while todo:
+        name, fn = todo.pop()
+        if id(fn) in seen or len(seen) > 12:
+            continue
+        seen.add(id(fn))
+        p = dest_param(fn)
+        if p is None:
+            continue
+        units.append((name, fn, p))
+        for c in cfront.calls_in(cfront.body_of(fn)):
+            cn = cfront.callee_name(c)
+            callee = cfun.get("Records::%s" % cn) or (cfun.get(cn) if cn and "::" not in cn else None)
+            if callee is not None and any(cfront.render(cfront.strip(a)) == p or
+                                          any(y.get("kind") == "DeclRefExpr" and y.get("referencedDecl", {}).get("name") == p for y in cfront.walk(a))
+                                          for a in cfront.call_args(c)):
+                todo.append(("Records::%s" % cn if cfun.get("Records::%s" % cn) is callee else cn, callee))
+    if not units:
+        chk.ob("R02.7m", "Records::read_from_text_column::skip-moves-like-read", None, _cwhere(root),
+               "Records::read_from_text_column has no single destination pointer parameter: skip / read modes not recognised")
+        return
+    for name, fn, p in units:
+        chk.analysed_unit(name + "[skip|read]")
+        ccfg = cfront.CCFG(fn)
+        loops = _fp_loops_of(fn)
+        reach = {mode: _fp_reach(ccfg, p, mode == "read") for mode in ("skip", "read")}
+
+        def sites(mode):
+            out = {}
+            for i in reach[mode]:
+                for c in cfront.node_calls(ccfg.node(i)):
+                    cn = cfront.callee_name(c)
+                    if cn in _FP_CONSUME or (cn in movers and (cfun.get("Records::%s" % cn) is not None or cfun.get(cn) is not None)):
+                        out[id(c)] = c
+            return out
+
+        def sig(c):
+            args = []
+            for a in cfront.call_args(c):
+                ts = {(a.get("type", {}).get("qualType") or ""), (cfront.strip(a).get("type", {}).get("qualType") or "")}
+                args.append("_" if ts & {"char *", "void *", "unsigned char *"} else cfront.render(a))
+            return (cfront.callee_name(c), tuple(args))
+
+        ss, rs = sites("skip"), sites("read")
+        only = {"skip": [c for i, c in ss.items() if i not in rs], "read": [c for i, c in rs.items() if i not in ss]}
+        # duplicated per mode: pair the sites of equal signature
+        rest_read = list(only["read"])
+        unpaired = []
+        for c in only["skip"]:
+            tw = [d for d in rest_read if sig(d) == sig(c)]
+            if tw:
+                rest_read.remove(tw[0])
+            else:
+                unpaired.append(("skipped (destination NULL)", "reading", c))
+        unpaired += [("read (destination given)", "skipping", c) for c in rest_read]
+        key = name + "::skip-moves-like-read"
+        if not unpaired:
+            chk.ob("R02.7m", key, True, _cwhere(fn),
+                   "the stream-consuming calls executed when the field is passed over (`%s` NULL) are those executed when it is read "
+                   "(%d site(s) in common, %d duplicated per mode)" % (p, len(set(ss) & set(rs)), len(only["skip"])))
+            continue
+        hard = [u for u in unpaired if _fp_content_dependent(fn, u[2], loops)]
+        when, other, c = (hard or unpaired)[0]
+        chk.ob("R02.7m", key, False if hard else None, "%s:%s" % (CPP, c.get("line") or fn.get("line", 0)) if (c.get("line") or fn.get("line")) else CPP,
+               "`%s` is executed only when the field is %s and the %s path has no matching call%s: passing over a field does not move "
+               "the file cursor the way reading it does (where a field ends -- at the delimiter, or at the newline after the last "
+               "field of a row -- is found differently), so the fields after a skipped one are read from the wrong place"
+               % (cfront.render(c), when, other,
+                  "; how far it moves the cursor depends on the characters it meets" if hard else
+                  " (a fixed-distance move: its equality with the other path's consumption is not decided)"))
 
 
 # ---------------------------------------------------------------------------
@@ -5910,6 +6450,24 @@ def _r02_7_columns_structural(chk, fname, fn, kind):
             asg = [cfront.render(x) for x in cfront.walk(then) if x.get("kind") == "BinaryOperator" and x.get("opcode") == "="]
             if cond == "(row2read > current_row)":
                 ok_rowskip = "skip_rows(current_row, row2read)" in calls and "(current_row = row2read)" in asg
+            if not ok_rowskip and len(st["inner"]) == 2:
+                # the same guard in either spelling (wanted > cursor, cursor < wanted); the arm is evaluated symbolically as straight-line
+                # integer code: one skip_rows(cursor, wanted), the cursor ends at the wanted row, the wanted row is not changed
+                c0 = cfront.strip(st["inner"][0])
+                if c0.get("kind") == "BinaryOperator" and c0.get("opcode") in (">", "<") and any(cfront.callee_name(c) == "skip_rows" for c in cfront.calls_in(then)):
+                    ahead, cursor = (cfront.render(cfront.strip(x)) for x in (c0["inner"] if c0["opcode"] == ">" else reversed(c0["inner"])))
+                    if ahead.isidentifier() and cursor.isidentifier() and ahead != cursor:
+                        import sympy as sp
+                        try:
+                            env, acalls = _arm_run(then)
+                        except _ArmUnsup:
+                            env = None
+                        if env is not None:
+                            W_, C_ = sp.Symbol(ahead, integer=True), sp.Symbol(cursor, integer=True)
+                            sk = [a_ for nm_, a_, _t in acalls if nm_ == "skip_rows"]
+                            ok_rowskip = len(sk) == 1 and len(sk[0]) == 2 and None not in sk[0] and sp.expand(sk[0][0] - C_) == 0 \
+                                and sp.expand(sk[0][1] - W_) == 0 and env.get(ahead, W_) == W_ and sp.expand(env.get(cursor, C_) - W_) == 0 \
+                                and any(cfront.render(s) in (cursor + "++", "++" + cursor, "(%s += 1)" % cursor) for s in (rbody.get("inner", []) or []))
     chk.ob("R02.7b", fname + "::row-skip-paired", ok_rowskip, W,
            "rows are skipped only when the wanted row is ahead of the cursor, by skip_rows(current_row,row2read) paired with current_row=row2read")
     # row cursor advanced exactly once per iteration, at top level of the row loop body
